@@ -935,9 +935,14 @@ public:
   void apply(int_conv_operation_t /*op*/, const variable_t &dst,
              const variable_t &src) override {
     // since reasoning about infinite precision we simply assign and
-    // ignore the widths.  Note that dst can be a boolean and src and
-    // integer, or viceversa. 
-    assign(dst, src);
+    // ignore the widths. If dst is a boolean and src an integer, or
+    // viceversa, the value is not preserved (trunc of 2 is not 2) so
+    // nothing is known about dst.
+    if (dst.get_type().is_bool() != src.get_type().is_bool()) {
+      operator-=(dst);
+    } else {
+      assign(dst, src);
+    }
   }
 
   void apply(bitwise_operation_t op, const variable_t &x, const variable_t &y,
